@@ -72,6 +72,9 @@ DsItems(p, o, m) ==
   ELSE (IF o.dims # m.dims THEN <<[diag |-> "shape-mismatch", p |-> p, exp |-> m.dims, got |-> o.dims]>> ELSE <<>>)
     \o (IF o.cls # m.dt.cls \/ o.size # m.dt.size \/ (m.dt.cls = 0 /\ o.sign # m.dt.sign)
         THEN <<[diag |-> "dtype-mismatch", p |-> p, exp |-> m.dt, got |-> [cls |-> o.cls, size |-> o.size, sign |-> o.sign]]>> ELSE <<>>)
+    \* what the datatype says beyond class and size (enumeration: member names and values in order), where the view exposes it
+    \o (IF Has(m.dt, "detail") /\ m.dt.detail # "" /\ Has(o, "detail") /\ o.detail # "?" /\ o.cls = m.dt.cls /\ o.detail # m.dt.detail
+        THEN <<[diag |-> "dtype-detail-mismatch", p |-> p, exp |-> m.dt.detail, got |-> o.detail]>> ELSE <<>>)
     \o (IF o.dims = m.dims THEN ReadItem(p, "f64", o, m) \o ReadItem(p, "str", o, m) \o ReadItem(p, "cmp", o, m) ELSE <<>>)
     \o (IF o.attrs.res # "ok" THEN <<[diag |-> "attribute-list-error", p |-> p]>>
         ELSE AttrItems(m.attrs, o.attrs.list, Collides, p))
